@@ -27,10 +27,10 @@ class Scalar (α : Type) extends OrdField α where
 namespace OrdField
 variable {α : Type} [OrdField α]
 
-instance (a b : α) : Decidable (a < b) := OrdField.decLt a b
-instance (a b : α) : Decidable (a ≤ b) := OrdField.decLe a b
-instance (n : Nat) : OfNat α n := ⟨OrdField.natLit n⟩
-instance : OfScientific α := ⟨OrdField.sciLit⟩
+instance (priority := low) (a b : α) : Decidable (a < b) := OrdField.decLt a b
+instance (priority := low) (a b : α) : Decidable (a ≤ b) := OrdField.decLe a b
+instance (priority := low) (n : Nat) : OfNat α n := ⟨OrdField.natLit n⟩
+instance (priority := low) : OfScientific α := ⟨OrdField.sciLit⟩
 
 /-- Python's `abs` on a float (sign test; agrees with `|x|` on an ordered field). -/
 def sabs (x : α) : α := if x < 0 then -x else x
